@@ -149,11 +149,12 @@ type Run struct {
 	top     *Frame
 	oblSeen map[string]int
 	allocRefs map[string]bool
+	faults    bool // BitsWriter model: sink writes may fail (C18); otherwise they succeed and contents are exact
 }
 
 func (e *Engine) newRun(prop string, safety bool) *Run {
 	ctx := newCtx()
-	r := &Run{eng: e, ctx: ctx, heap: newHeap(ctx), prop: prop, safety: safety,
+	r := &Run{eng: e, ctx: ctx, heap: newHeap(ctx), prop: prop, safety: safety, faults: prop == "C18",
 		fld: map[string]bool{}, globals: map[string]string{}, typeTag: map[string]int{},
 		assumed: map[string]bool{}, inlined: map[string]bool{}, fnConst: map[*ssa.Function]string{}, oblSeen: map[string]int{}}
 	r.emitSpecPrelude()
@@ -433,6 +434,8 @@ func (r *Run) seqOf(es, arr, off, n string) string {
 	r.declareOnce(fmt.Sprintf("(declare-fun len.%s (Seq.%s) (_ BitVec 64))", id, id))
 	r.declareOnce(fmt.Sprintf("(assert (forall ((a %s) (o (_ BitVec 64)) (n (_ BitVec 64)) (k (_ BitVec 64))) (! (=> (and (bvsle #x0000000000000000 k) (bvslt k n)) (= (at.%s (%s a o n) k) (select a (bvadd o k)))) :pattern ((at.%s (%s a o n) k)))))", sArr(sBV(64), es), id, fn, id, fn))
 	r.declareOnce(fmt.Sprintf("(assert (forall ((a %s) (o (_ BitVec 64)) (n (_ BitVec 64))) (! (= (len.%s (%s a o n)) n) :pattern ((%s a o n)))))", sArr(sBV(64), es), id, fn, fn))
+	// a store outside the window does not change the sequence
+	r.declareOnce(fmt.Sprintf("(assert (forall ((a %s) (i (_ BitVec 64)) (v %s) (o (_ BitVec 64)) (n (_ BitVec 64))) (! (=> (or (bvslt i o) (bvsle (bvadd o n) i)) (= (%s (store a i v) o n) (%s a o n))) :pattern ((%s (store a i v) o n)))))", sArr(sBV(64), es), es, fn, fn, fn))
 	return "(" + fn + " " + arr + " " + off + " " + n + ")"
 }
 
@@ -622,7 +625,7 @@ func (r *Run) loadLeafs(st *State, comp string, ref string, t types.Type) (Value
 	terms := make([]string, len(ls))
 	for i, l := range ls {
 		h := r.heap.get(st, comp+l.suffix, sArr(sRef, l.sort))
-		terms[i] = sel(h, ref)
+		terms[i] = r.ctx.selectOf(h, ref)
 	}
 	return valueFromLeaves(t, terms), nil
 }
